@@ -1,0 +1,6 @@
+// Package verifhook provides named yield points for the external verification harness.
+//
+// Without the build tag `verif` Yield is an empty function that the compiler inlines away;
+// with the tag it calls an installable handler, which lets the harness park a goroutine at a
+// named point and release it in a chosen order (deterministic schedule replay).
+package verifhook
